@@ -53,6 +53,27 @@ func (g *G) randPrims(dim, k, n int, degenerateOK bool) [][]V {
 		pool[i] = g.gridPt(dim)
 	}
 	local := g.p(0.6)
+	// common planes: axis-aligned faces (floors, walls, sides of boxes, extruded profiles; collinear runs of
+	// segments in 2-D) make the bounds of INNER nodes flat as well.  coplanarAll: the whole set lies in one
+	// axis plane; otherwise (sometimes) 1 … 3 planes, each primitive put on one of them with probability 0.7.
+	type plane struct {
+		a int
+		x float64
+	}
+	var planes []plane
+	pPlane := 0.0
+	switch m := g.Rng.Intn(20); {
+	case m < 3:
+		planes, pPlane = []plane{{g.Rng.Intn(dim), g.half(3)}}, 1
+	case m < 7:
+		for k := 1 + g.Rng.Intn(3); k > 0; k-- {
+			planes = append(planes, plane{g.Rng.Intn(dim), g.half(3)})
+		}
+		pPlane = 0.7
+	}
+	if pPlane == 1 && n > 1 {
+		g.Stat(fmt.Sprintf("real%d sets in one axis plane(all bounds flat)", dim), 1)
+	}
 	out := make([][]V, 0, n)
 	for len(out) < n {
 		vs := make([]V, k)
@@ -83,6 +104,12 @@ func (g *G) randPrims(dim, k, n int, degenerateOK bool) [][]V {
 				vs[j][a] = vs[0][a]
 			}
 		}
+		if len(planes) > 0 && g.p(pPlane) {
+			pl := planes[g.Rng.Intn(len(planes))]
+			for j := range vs {
+				vs[j][pl.a] = pl.x
+			}
+		}
 		if degenerateOK && g.p(0.05) {
 			if k == 3 && g.p(0.5) {
 				vs[2] = vs[1].scale(2).sub(vs[0]) // collinear
@@ -102,6 +129,44 @@ func (g *G) randPrims(dim, k, n int, degenerateOK bool) [][]V {
 	return out
 }
 
+// boxPrims: the surfaces of 1 … 3 axis-aligned boxes on the half-integer grid (the triangulation of NewMeshRect:
+// two triangles per face; in 2-D the four edges of a rectangle outline), possibly touching / overlapping / nested.
+// Every face is an axis-aligned flat set, so the hierarchy nodes over one face (or over coplanar faces of two
+// boxes) have zero-thickness bounds.
+func (g *G) boxPrims(dim int) [][]V {
+	var out [][]V
+	for nb := 1 + g.Rng.Intn(3); nb > 0; nb-- {
+		var b box
+		for a := 0; a < dim; a++ {
+			x := g.half(3)
+			b.lo[a], b.hi[a] = x, x+g.pickF([]float64{0.5, 1, 1, 2, 3, 4})
+		}
+		if dim == 2 {
+			c := []V{{b.lo[0], b.lo[1]}, {b.hi[0], b.lo[1]}, {b.hi[0], b.hi[1]}, {b.lo[0], b.hi[1]}}
+			for i := range c {
+				out = append(out, []V{c[i], c[(i+1)%4]})
+			}
+			continue
+		}
+		for a := 0; a < 3; a++ {
+			u, w := (a+1)%3, (a+2)%3
+			for _, x := range []float64{b.lo[a], b.hi[a]} {
+				var c [4]V
+				for i, uw := range [][2]float64{{b.lo[u], b.lo[w]}, {b.hi[u], b.lo[w]}, {b.hi[u], b.hi[w]}, {b.lo[u], b.hi[w]}} {
+					c[i][a], c[i][u], c[i][w] = x, uw[0], uw[1]
+				}
+				if g.p(0.5) { // either diagonal
+					out = append(out, []V{c[0], c[1], c[2]}, []V{c[0], c[2], c[3]})
+				} else {
+					out = append(out, []V{c[0], c[1], c[3]}, []V{c[1], c[2], c[3]})
+				}
+			}
+		}
+	}
+	g.Rng.Shuffle(len(out), func(i, j int) { out[i], out[j] = out[j], out[i] })
+	return out
+}
+
 // primTarget: a point on a primitive: vertex, edge midpoint, or an interior point.
 func (g *G) primTarget(vs []V) V {
 	a, b := vs[g.Rng.Intn(len(vs))], vs[g.Rng.Intn(len(vs))]
@@ -115,12 +180,41 @@ func (g *G) primTarget(vs []V) V {
 	return a.add(b).scale(0.5).add(c).scale(0.5)
 }
 
+// primInterior: a point strictly inside the primitive (weights 1/4, 1/4, 1/2 in some order; 1/4 : 3/4 or the
+// middle on a segment): exact on the half-integer grid.
+func primInterior(g *G, vs []V) V {
+	p := g.Rng.Perm(len(vs))
+	if len(vs) == 2 {
+		m := vs[0].add(vs[1]).scale(0.5)
+		if g.p(0.5) {
+			return m
+		}
+		return m.add(vs[p[0]]).scale(0.5)
+	}
+	return vs[p[0]].add(vs[p[1]]).scale(0.5).add(vs[p[2]]).scale(0.5)
+}
+
 // realQuery: aimed either at the primitive boxes or at points on the primitives themselves.
 func (g *G) realQuery(dim int, kind string, prims [][]V, bs, aim []box) query {
-	if len(prims) == 0 || g.p(0.4) {
+	pAim := 0.4
+	if kind == "rect" {
+		pAim = 0.25
+	}
+	if len(prims) == 0 || g.p(pAim) {
 		return g.aimQuery(dim, kind, aim)
 	}
 	i := g.Rng.Intn(len(prims))
+	if kind == "rect" && g.p(0.7) { // prefer an axis-aligned primitive (flat bounds)
+		var flat []int
+		for j, b := range bs {
+			if b.flat(dim) {
+				flat = append(flat, j)
+			}
+		}
+		if len(flat) > 0 {
+			i = g.pickI(flat)
+		}
+	}
 	t := g.primTarget(prims[i])
 	q := query{q: kind}
 	switch kind {
@@ -153,6 +247,26 @@ func (g *G) realQuery(dim int, kind string, prims [][]V, bs, aim []box) query {
 			p, e = t.sub(d), t.add(d) // crosses
 		}
 		q.a = append(append(q.a, p[:dim]...), e[:dim]...)
+	case "rect": // a small box around / beside a point of the primitive: it pierces a face (crosses a segment)
+		// in its interior, contains no vertex and often no part of an edge
+		if g.p(0.7) {
+			t = primInterior(g, prims[i])
+		}
+		q.a = make([]float64, 2*dim)
+		for a := 0; a < dim; a++ {
+			w := g.pickF([]float64{0, 0.03125, 0.03125, 0.0625, 0.0625, 0.125, 0.25, 0.5, 1})
+			if bs[i].lo[a] == bs[i].hi[a] && g.p(0.7) { // across the plane of a flat primitive
+				w = g.pickF([]float64{0.03125, 0.25, 0.5, 1, 2})
+			}
+			lo, hi := t[a]-w, t[a]+w
+			switch g.Rng.Intn(6) {
+			case 0:
+				hi = t[a] // touches the point from below
+			case 1:
+				lo = t[a] // … from above
+			}
+			q.a[a], q.a[dim+a] = lo, hi
+		}
 	case "tri": // a triangle with the point of the primitive as its centroid
 		var d1, d2 V
 		for a := 0; a < 3; a++ {
@@ -231,6 +345,54 @@ func realAns3(tris []*model3d.Triangle, q query) (ans []lans, segs [][]model3d.S
 	return
 }
 
+// clipSensitive: coverage statistic only.  Would the halving hierarchy over the leaves `ids` answer the box query
+// differently if every node handed its children the part of the box inside the node's bounds (a valid step for
+// point sets, but the leaf tests are edge tests: under a zero-thickness node the clipped box is flat and no longer
+// pierces the face)?  leafAns(i, lo, hi) is the real per-primitive test.
+func clipSensitive(dim int, ids []int, bs []box, lo, hi V, leafAns func(i int, lo, hi V) bool) bool {
+	var rec func(ids []int, lo, hi V) bool
+	rec = func(ids []int, lo, hi V) bool {
+		if len(ids) == 1 {
+			return leafAns(ids[0], lo, hi)
+		}
+		u := bs[ids[0]]
+		for _, i := range ids {
+			u = union(u, bs[i])
+		}
+		for a := 0; a < dim; a++ {
+			lo[a], hi[a] = math.Max(lo[a], u.lo[a]), math.Min(hi[a], u.hi[a])
+			if lo[a] > hi[a] {
+				return false
+			}
+		}
+		return rec(ids[:len(ids)/2], lo, hi) || rec(ids[len(ids)/2:], lo, hi)
+	}
+	if len(ids) == 0 {
+		return false
+	}
+	plain := false
+	for _, i := range ids {
+		plain = plain || leafAns(i, lo, hi)
+	}
+	return plain != rec(ids, lo, hi)
+}
+
+func primsOf3(tris []*model3d.Triangle) []model3d.Triangle {
+	out := make([]model3d.Triangle, len(tris))
+	for i, t := range tris {
+		out[i] = *t
+	}
+	return out
+}
+
+func primsOf2(segs []*model2d.Segment) []model2d.Segment {
+	out := make([]model2d.Segment, len(segs))
+	for i, s := range segs {
+		out[i] = *s
+	}
+	return out
+}
+
 // canon: order-independent rendering of a result (MeshToCollider's leaf order depends on map iteration).
 func canon(q string, r qres, segs []model3d.Segment) string {
 	if r.pan != "" {
@@ -263,11 +425,52 @@ func canon(q string, r qres, segs []model3d.Segment) string {
 var kinds3 = []string{"ray", "ray", "first", "first", "sphere", "sphere", "seg", "rect", "tri"}
 var kinds2 = []string{"ray", "ray", "first", "first", "sphere", "sphere", "seg", "rect"}
 
+// setKinds: the queries put to one set: each kind of the list with probability 0.6, plus extra box queries (the
+// box handed to a leaf is what its edge tests run on) — more of them when inner nodes have flat bounds.
+func (g *G) setKinds(kinds []string, flatNodes bool) []string {
+	var out []string
+	for _, k := range kinds {
+		if !g.p(0.4) {
+			out = append(out, k)
+		}
+	}
+	extra := g.Rng.Intn(3)
+	if flatNodes {
+		extra += 5
+	}
+	for ; extra > 0; extra-- {
+		out = append(out, "rect")
+	}
+	return out
+}
+
+// flatPair: two different primitives whose common bounds are flat (an inner node over them has zero thickness).
+func flatPair(dim int, bs []box) bool {
+	if len(bs) > 64 {
+		bs = bs[:64]
+	}
+	for i := range bs {
+		for j := i + 1; j < len(bs); j++ {
+			if union(bs[i], bs[j]).flat(dim) {
+				return true
+			}
+		}
+	}
+	return false
+}
+
 // realSet3: one triangle set; GroupedTrianglesToCollider (`H n …`), BVHToCollider (nested `J 2`),
 // MeshToCollider (scan only).
 func (g *G) realSet3() int {
 	n := g.pickI(realSizes)
-	prims := g.randPrims(3, 3, n, g.p(0.5)) // zero-area triangles poison `tri` queries (NaN segments), so only in half of the sets
+	var prims [][]V
+	if g.p(0.15) { // closed axis-aligned box meshes: every face is a flat set
+		prims = g.boxPrims(3)
+		n = len(prims)
+		g.Stat("real3 box-mesh sets(axis-aligned faces)", 1)
+	} else {
+		prims = g.randPrims(3, 3, n, g.p(0.5)) // zero-area triangles poison `tri` queries (NaN segments), so only in half of the sets
+	}
 	tris := make([]*model3d.Triangle, n)
 	ss := g.sceneScale() // the whole scene (triangles and queries) times a power of two
 	for i, p := range prims {
@@ -319,6 +522,10 @@ func (g *G) realSet3() int {
 	shH := &shape{k: 'H', ids: seq(n)}
 	aim := g.aimBoxes(3, bs0)
 	emitted := 0
+	flatNodes := flatPair(3, bs0)
+	if flatNodes {
+		g.Stat("real3 sets with coplanar axis-aligned triangles(flat inner bounds possible)", 1)
+	}
 	// answers are values: the slices returned by TriangleCollisions are kept and read again after all later
 	// queries on the same colliders
 	var keptSegs, keptCopies [][]model3d.Segment
@@ -333,10 +540,7 @@ func (g *G) realSet3() int {
 			}
 		}
 	}()
-	for _, kind := range kinds3 {
-		if g.p(0.4) {
-			continue
-		}
+	for _, kind := range g.setKinds(kinds3, flatNodes) {
 		q := g.realQuery(3, kind, prims, bs0, aim)
 		q.scaleScene(ss)
 		ans, lsegs, pan := realAns3(tris, q)
@@ -365,6 +569,17 @@ func (g *G) realSet3() int {
 			g.PropFail("prop:c08 real3-triangle-reports-nan-segment",
 				"a triangle of the set answers TriangleCollisions with a non-finite segment: "+fmt.Sprint(prims)+" query "+fmt.Sprint(q.a))
 			continue
+		}
+		if kind == "rect" {
+			if clipSensitive(3, seq(n), bs, q.v(0), q.v(1), func(i int, lo, hi V) bool {
+				return tris[i].RectCollision(&model3d.Rect{MinVal: c3(lo), MaxVal: c3(hi)})
+			}) {
+				g.Stat("real3 rect queries piercing a face under a flat node(children must be asked the unclipped box)", 1)
+			}
+		}
+		hierNote = ""
+		if n <= 16 {
+			hierNote = fmt.Sprintf(" | real triangles (leaf order) %v, %s query %v; H = GroupedTrianglesToCollider, J-nest = BVHToCollider of that BVH", primsOf3(tris), kind, q.a)
 		}
 		for _, hs := range []struct {
 			coll model3d.Collider
@@ -403,10 +618,11 @@ func (g *G) realSet3() int {
 		}
 		if a, b := canon(kind, got, gotSegs), canon(kind, scan(kind, seq(n), ans), wantSegs); a != b {
 			g.PropFail("prop:c08 meshtocollider-"+kind+"-differs-from-scan",
-				opLine("j3", 3, q, false, true, bs, ans, shH)+" => got "+a+" want "+b)
+				opLine("j3", 3, q, false, true, bs, ans, shH)+" => got "+a+" want "+b+hierNote)
 		}
 		g.Stat("real3 MeshToCollider checks", 1)
 	}
+	hierNote = ""
 	if n == 0 {
 		g.Stat("real3 empty-set", 1)
 	}
@@ -446,7 +662,14 @@ func realAns2(segs []*model2d.Segment, q query) (ans []lans, pan string) {
 
 func (g *G) realSet2() int {
 	n := g.pickI(realSizes)
-	prims := g.randPrims(2, 2, n, true)
+	var prims [][]V
+	if g.p(0.15) { // rectangle outlines: every side is a flat set, sides of different rectangles may be collinear
+		prims = g.boxPrims(2)
+		n = len(prims)
+		g.Stat("real2 rect-outline sets(axis-aligned sides)", 1)
+	} else {
+		prims = g.randPrims(2, 2, n, true)
+	}
 	segs := make([]*model2d.Segment, n)
 	ss := g.sceneScale()
 	for i, p := range prims {
@@ -496,6 +719,10 @@ func (g *G) realSet2() int {
 	}
 	shH := &shape{k: 'H', ids: seq(n)}
 	aim := g.aimBoxes(2, bs0)
+	flatNodes := flatPair(2, bs0)
+	if flatNodes {
+		g.Stat("real2 sets with collinear axis-aligned segments(flat inner bounds possible)", 1)
+	}
 	tag := func(rc model2d.RayCollision) int {
 		if s, ok := rc.Extra.(*model2d.Segment); ok {
 			if i, ok := idx[s]; ok {
@@ -505,10 +732,7 @@ func (g *G) realSet2() int {
 		return 999999
 	}
 	emitted := 0
-	for _, kind := range kinds2 {
-		if g.p(0.4) {
-			continue
-		}
+	for _, kind := range g.setKinds(kinds2, flatNodes) {
 		q := g.realQuery(2, kind, prims, bs0, aim)
 		q.scaleScene(ss)
 		ans, pan := realAns2(segs, q)
@@ -519,6 +743,17 @@ func (g *G) realSet2() int {
 		if !ok {
 			g.Stat("real2 skipped(non-finite or panicking leaf answer)", 1)
 			continue
+		}
+		if kind == "rect" {
+			if clipSensitive(2, seq(n), bs, q.w(0), q.w(1), func(i int, lo, hi V) bool {
+				return segs[i].RectCollision(&model2d.Rect{MinVal: c2(lo), MaxVal: c2(hi)})
+			}) {
+				g.Stat("real2 rect queries crossing a segment under a flat node(children must be asked the unclipped box)", 1)
+			}
+		}
+		hierNote = ""
+		if n <= 16 {
+			hierNote = fmt.Sprintf(" | real segments (leaf order) %v, %s query %v; H = GroupedSegmentsToCollider, J-nest = BVHToCollider of that BVH", primsOf2(segs), kind, q.a)
 		}
 		for _, hs := range []struct {
 			coll model2d.Collider
@@ -534,10 +769,11 @@ func (g *G) realSet2() int {
 		got := run2(collM, q, func(model2d.RayCollision) int { return 0 })
 		if a, b := canon(kind, got, nil), canon(kind, scan(kind, seq(n), ans), nil); a != b {
 			g.PropFail("prop:c08 meshtocollider2d-"+kind+"-differs-from-scan",
-				opLine("j2", 2, q, false, true, bs, ans, shH)+" => got "+a+" want "+b)
+				opLine("j2", 2, q, false, true, bs, ans, shH)+" => got "+a+" want "+b+hierNote)
 		}
 		g.Stat("real2 MeshToCollider checks", 1)
 	}
+	hierNote = ""
 	if n == 0 {
 		g.Stat("real2 empty-set", 1)
 	}
